@@ -140,6 +140,17 @@ theorem tupleLen_of_uniform (B : DFTA σ (St Q)) (L : Nat) (hne : B.finals ≠ [
     simp only [List.head?_cons, Option.map_some, Option.some.injEq]
     rw [hu q (by rw [hf]; exact List.mem_cons_self)]
 
+theorem tupleLen_some (B : DFTA σ (St Q)) (L l : Nat) (hu : Uniform B L) (h : tupleLen B = some l) :
+    l = 1 + L ∧ B.finals ≠ [] := by
+  unfold tupleLen at h
+  cases hf : B.finals with
+  | nil => rw [hf] at h; cases h
+  | cons q qs =>
+    rw [hf] at h
+    simp only [List.head?_cons, Option.map_some, Option.some.injEq] at h
+    rw [hu q (by rw [hf]; exact List.mem_cons_self)] at h
+    exact ⟨h.symm, by simp⟩
+
 /-! ### `allow` -/
 
 theorem allow_refines (B : DFTA σ (St Q)) (hd : B.Det) (S : List σ) :
@@ -301,38 +312,42 @@ where
 /-! ### the induction on the token -/
 
 mutual
-  theorem processInner_refines : ∀ (tok : Tok σ) (B A : DFTA σ (St Q)) (L : Nat), B.Det → B.finals ≠ [] →
+  theorem processInner_refines : ∀ (tok : Tok σ) (B A : DFTA σ (St Q)) (L : Nat), B.Det →
       Uniform B L → processInner B tok = some A → Refines B A (width tok) (attrs tok)
-    | .any, B, A, _, hd, _, _, h => by
+    | .any, B, A, _, hd, _, h => by
       simp only [processInner, Option.some.injEq] at h
       subst h
       exact (Refines.refl B hd).congr (fun _ _ _ => by simp [attrs])
-    | .allow S, B, A, _, hd, _, _, h => by
+    | .allow S, B, A, _, hd, _, h => by
       simp only [processInner, Option.some.injEq] at h
       subst h
       exact (allow_refines B hd S).congr (fun _ _ _ => by simp [attrs])
-    | .atMost S n, B, A, _, hd, _, _, h => by
+    | .atMost S n, B, A, _, hd, _, h => by
       simp only [processInner, Option.some.injEq] at h
       subst h
       exact (processCount_refines B hd S n true).congr (fun _ _ _ => by simp [attrs])
-    | .atLeast S n, B, A, _, hd, _, _, h => by
+    | .atLeast S n, B, A, _, hd, _, h => by
       simp only [processInner, Option.some.injEq] at h
       subst h
       exact (processCount_refines B hd S n false).congr (fun _ _ _ => by simp [attrs])
-    | .forbidSub S, B, A, _, hd, _, _, h => by
+    | .forbidSub S, B, A, _, hd, _, h => by
       simp only [processInner, Option.some.injEq] at h
       subst h
       exact (processCount_refines B hd S 0 true).congr (fun _ _ _ => by simp [attrs])
-    | .forceSub S, B, A, _, hd, _, _, h => by
+    | .forceSub S, B, A, _, hd, _, h => by
       simp only [processInner, Option.some.injEq] at h
       subst h
       exact (processCount_refines B hd S 1 false).congr (fun _ _ _ => by simp [attrs])
-    | .func H args, B, A, L, hd, hne, hu, h => by
+    | .func H args, B, A, L, hd, hu, h => by
       simp only [processInner] at h
       have r0 := allow_refines B hd H
-      have hne0 := r0.finNe hne
       have hu0 := r0.uniform hu
-      rw [tupleLen_of_uniform _ _ hne0 hu0] at h
+      cases htl : tupleLen (tag B (fun P _ _ => decide (P ∈ H))) with
+      | none => rw [htl] at h; cases h
+      | some l0 =>
+      obtain ⟨el0, hne0⟩ := tupleLen_some _ _ _ hu0 htl
+      subst el0
+      rw [htl] at h
       simp only at h
       cases hpa : processArgs (tag B (fun P _ _ => decide (P ∈ H))) args [1 + (1 + L)] [] with
       | none => rw [hpa] at h; cases h
@@ -341,7 +356,7 @@ mutual
         rw [hpa] at h
         simp only [Option.some.injEq] at h
         obtain ⟨r1, hl, hc⟩ := processArgs_refines args _ (1 + L) [1 + (1 + L)] [] (g', lengths, hasCheck)
-          r0.det hne0 hu0 (by simp) hpa
+          r0.det hu0 (by simp) hpa
         simp only at hl hc r1
         have r01 := r0.trans r1
         have r2 := tag_refines g' (matchCheck ((lengths.map (fun l => lengths.getLastD 0 - l)).headD 0)
@@ -386,27 +401,31 @@ mutual
               rw [this]
               exact ⟨[bit (decide (k.label ∈ H))] ++ dk.2, by simp [extL]⟩
   theorem processArgs_refines : ∀ (args : List (Tok σ)) (g : DFTA σ (St Q)) (L : Nat) (lengths : List Nat)
-      (hasCheck : List Bool) (res : DFTA σ (St Q) × List Nat × List Bool), g.Det → g.finals ≠ [] → Uniform g L →
+      (hasCheck : List Bool) (res : DFTA σ (St Q) × List Nat × List Bool), g.Det → Uniform g L →
       lengths.getLastD 0 = 1 + L → processArgs g args lengths hasCheck = some res →
       Refines g res.1 (widthArgs args) (attrsArgs args) ∧ res.2.1 = lengths ++ psums (1 + L) args ∧
         res.2.2 = hasCheck ++ args.map (fun a => decide (width a > 0))
-    | [], g, _, lengths, hasCheck, res, hd, _, _, _, h => by
+    | [], g, _, lengths, hasCheck, res, hd, _, _, h => by
       simp only [processArgs, Option.some.injEq] at h
       subst h
       exact ⟨(Refines.refl g hd).congr (fun _ _ _ => by simp [attrsArgs]), by simp [psums], by simp⟩
-    | a :: as, g, L, lengths, hasCheck, res, hd, hne, hu, hlast, h => by
+    | a :: as, g, L, lengths, hasCheck, res, hd, hu, hlast, h => by
       simp only [processArgs] at h
       cases hp : processInner g a with
       | none => rw [hp] at h; cases h
       | some g1 =>
         rw [hp] at h
         simp only at h
-        have r1 := processInner_refines a g g1 L hd hne hu hp
-        have hne1 := r1.finNe hne
+        have r1 := processInner_refines a g g1 L hd hu hp
         have hu1 := r1.uniform hu
-        rw [tupleLen_of_uniform _ _ hne1 hu1] at h
+        cases htl : tupleLen g1 with
+        | none => rw [htl] at h; cases h
+        | some cur =>
+        obtain ⟨ecur, _⟩ := tupleLen_some _ _ _ hu1 htl
+        subst ecur
+        rw [htl] at h
         simp only at h
-        obtain ⟨r2, hl, hc⟩ := processArgs_refines as g1 (width a + L) _ _ res r1.det hne1 hu1 (by simp) h
+        obtain ⟨r2, hl, hc⟩ := processArgs_refines as g1 (width a + L) _ _ res r1.det hu1 (by simp) h
         refine ⟨(r1.trans r2).congr (fun _ _ _ => by simp [attrsArgs]), ?_, ?_⟩
         · rw [hl]
           simp only [psums, List.append_assoc, List.singleton_append]
